@@ -141,7 +141,10 @@ func (exec *Executor) execAnyNode(
 func collection(v any) []any {
 	switch v := v.(type) {
 	case map[string]any:
-		return slices.Collect(maps.Values(v)) // Just work with the values
+		// Just work with the values. Return a non-nil slice even when the map
+		// is empty, so that an empty object, like an empty array, is not
+		// mistaken for a scalar.
+		return slices.AppendSeq(make([]any, 0, len(v)), maps.Values(v))
 	case []any:
 		return v
 	}
